@@ -10,7 +10,7 @@ import (
 )
 
 var profile = vh.ShimProfile{
-	Validities:      []string{"current", "current", "forever", "beforebig", "past", "past", "future"},
+	Validities:      []string{"current", "current", "forever", "beforebig", "past", "past", "future", "soon", "justpast"},
 	KeyIDClasses:    vh.AllKeyIDClasses,
 	Forward:         true,
 	Faults:          true,
@@ -64,6 +64,16 @@ func genWithSlotEpisode(t *rapid.T) vh.ShimCase {
 		c.Certs = append(c.Certs, vh.CertDef{Key: key, KeyIDClass: class, Validity: "current", Serial: uint64(3000 + i)})
 	}
 	ep := []vh.Op{{Kind: "plan", Cert: -1}, {Kind: "addkey", Key: key, Cert: -1}, {Kind: "addhard", Cert: base, Comment: "touch"}}
+	if rapid.Bool().Draw(t, "slotForward") {
+		// raw requests of every kind pass through while a hardware certificate is held: none of them is
+		// the shim's business, the certificate stays listed and usable
+		n := rapid.IntRange(1, 3).Draw(t, "slotForwardN")
+		for i := 0; i < n; i++ {
+			code := rapid.SampledFrom([]int{20, 21, 26, 28, 24, 30, 200, 0}).Draw(t, fmt.Sprintf("slotForwardCode%d", i))
+			ep = append(ep, vh.Op{Kind: "forward", Cert: -1, Body: append([]byte{byte(code)}, rapid.SliceOfN(rapid.Byte(), 0, 24).Draw(t, fmt.Sprintf("slotForwardBody%d", i))...)})
+		}
+		ep = append(ep, vh.Op{Kind: "list", Cert: -1}, vh.Op{Kind: "sign", Cert: base, Data: []byte("after forward")})
+	}
 	if rapid.Bool().Draw(t, "slotSecondWhileHeld") {
 		ep = append(ep, vh.Op{Kind: "addhard", Cert: base + 1, Comment: "touchless"})
 	}
